@@ -97,12 +97,11 @@ Proof.
   destruct s as [|c1 s]; [rewrite split_frac_tz_one; gosym; done13|].
   destruct (N.eq_dec c0 46) as [->|Hne]; [|rewrite split_frac_tz_other by assumption; gosym; done13].
   change (split_frac_tz (46%N :: c1 :: s)) with (let (d, r) := span_digits (c1 :: s) in (46%N :: d, r)).
-  set (p0 := 46%N :: c1 :: s).
-  assert (Hlen0 : go_len p0 = go_len s + 2) by (unfold p0; rewrite !go_len_cons; lia).
-  replace (1 <? go_len p0) with true by (pose proof (go_len_nonneg s); lia).
-  change (go_index p0 0) with (GOk 46%N). cbn [gbind N.eqb Pos.eqb].
   pose proof (span_digits_split (c1 :: s)) as Hsp.
   destruct (span_digits (c1 :: s)) as [d r]. destruct Hsp as (Hs & Hd & Hr).
+  (* the prologue, whatever its shape: every condition is closed *)
+  gosym0.
+  set (p0 := 46%N :: c1 :: s) in *.
   assert (Hp0 : p0 = (46%N :: d) ++ r) by (unfold p0; rewrite Hs; reflexivity).
   erewrite go_loop_inv_eq with
     (Inv := fun i => 1 <= i <= 1 + go_len d)
@@ -141,7 +140,8 @@ Proof.
         unfold is_digit in Hc. close_cond.
       * eexists. split; [reflexivity|]. cbv beta. eexists. split; [reflexivity|]. split; lia.
   - pose proof (go_len_nonneg d). lia.
-  - rewrite Hp0. unfold go_len. rewrite app_length. cbn [length]. lia.
+  - assert (Hl : length (c1 :: s) = length (d ++ r)) by (rewrite Hs; reflexivity).
+    rewrite app_length in Hl. unfold go_len in *. cbn [length] in *. lia.
 Qed.
 
 (* ---------- headline facts of C13, restated about the generated functions ---------- *)
